@@ -63,7 +63,18 @@ type Spec struct {
 	Shadow  int      `json:"shadow"`   // module index that supplies its own google/protobuf/any.proto, -1 = none
 	// ShadowWkts says which well-known types module Shadow supplies (bit set of shadowAny, shadowTimestamp); 0 = any.proto only.
 	ShadowWkts int `json:"shadow_wkts,omitempty"`
+	// Pkg is the package variant per file (nil = every file has its own package): pOwn, pShared, pNone.
+	Pkg []int `json:"pkg,omitempty"`
 }
+
+// Package variants of a file.
+const (
+	pOwn    = iota // package pkg.f<i>;
+	pShared        // package pkg; (the same for every file with this variant; the parent of the own packages)
+	pNone          // no package statement
+)
+
+var pkgNames = []string{"own", "shared", "none"}
 
 const (
 	shadowAny       = 1
@@ -78,7 +89,26 @@ func modName(dir string) string {
 	return "buf.build/acme/" + strings.ReplaceAll(dir, "/", "-")
 }
 
-func pkgOf(i int) string { return fmt.Sprintf("pkg.f%d", i) }
+// pkgOf is the package of file i ("" = the file has no package statement).
+func (s *Spec) pkgOf(i int) string {
+	if s.Pkg != nil {
+		switch s.Pkg[i] {
+		case pShared:
+			return "pkg" // a dotted prefix of the own packages pkg.f<i>: equal packages, not related ones, are "the same package"
+		case pNone:
+			return ""
+		}
+	}
+	return fmt.Sprintf("pkg.f%d", i)
+}
+
+// qual is the fully qualified name of a top-level element of file i.
+func (s *Spec) qual(i int, name string) string {
+	if p := s.pkgOf(i); p != "" {
+		return p + "." + name
+	}
+	return name
+}
 
 // publicReach returns the files whose symbols are visible through file j because of chains of public
 // imports starting at j (not including j).
@@ -169,7 +199,11 @@ func (s *Spec) renderFile(i int) string {
 	case sUnspecified:
 		lbl = "optional "
 	}
-	fmt.Fprintf(&b, "\npackage %s;\n\n", pkgOf(i))
+	if p := s.pkgOf(i); p != "" {
+		fmt.Fprintf(&b, "\npackage %s;\n\n", p)
+	} else {
+		b.WriteString("\n// (no package statement)\n\n")
+	}
 	switch s.Wkt[i] {
 	case wAnyUnused:
 		fmt.Fprintf(&b, "import %q;\n", wktAny)
@@ -198,17 +232,17 @@ func (s *Spec) renderFile(i int) string {
 	fmt.Fprintf(&b, "  // Leading comment of id.\n  %sint32 id = 1; // trailing comment of id\n", lbl)
 	for j := 0; j < s.N; j++ {
 		if s.Kind[i][j] == kPlain || s.Kind[i][j] == kPublic {
-			fmt.Fprintf(&b, "  %s%s.M%d r%d = %d;\n", lbl, pkgOf(j), j, j, 2+j)
+			fmt.Fprintf(&b, "  %s%s r%d = %d;\n", lbl, s.qual(j, fmt.Sprintf("M%d", j)), j, 2+j)
 		}
 	}
 	for _, k := range s.viaPublic(i) {
-		fmt.Fprintf(&b, "  %s%s.M%d t%d = %d; // visible through a public import only\n", lbl, pkgOf(k), k, k, 10+k)
+		fmt.Fprintf(&b, "  %s%s t%d = %d; // visible through a public import only\n", lbl, s.qual(k, fmt.Sprintf("M%d", k)), k, 10+k)
 	}
 	switch s.Wkt[i] {
 	case wAnyUsed:
 		fmt.Fprintf(&b, "  %sgoogle.protobuf.Any w = 20;\n", lbl)
 	case wDescriptor:
-		fmt.Fprintf(&b, "  %sstring s = 21 [(%s.opt%d) = {\n    a: 1 /* inside the literal */\n    b: \"x\"\n  }];\n", lbl, pkgOf(i), i)
+		fmt.Fprintf(&b, "  %sstring s = 21 [(%s) = {\n    a: 1 /* inside the literal */\n    b: \"x\"\n  }];\n", lbl, s.qual(i, fmt.Sprintf("opt%d", i)))
 	}
 	b.WriteString("}\n")
 	return b.String()
@@ -318,14 +352,84 @@ func (w *World) Texts() map[string]string {
 // ---------------------------------------------------------------------------------------------
 
 // Selection is an input directory plus --path / --exclude-path values, all relative to the workspace root.
+//
+// With ProtoFile set the input is a .proto file reference (`buf build <ProtoFile>[#include_package_files=true]`): SubDir,
+// Paths and Excludes are unused.
 type Selection struct {
 	SubDir   string   `json:"sub_dir"`
 	Paths    []string `json:"paths"`
 	Excludes []string `json:"excludes"`
+	// ProtoFile is the workspace-relative path of the referenced .proto file ("" = directory input).
+	ProtoFile string `json:"proto_file,omitempty"`
+	// IncludePkg is include_package_files of the file reference.
+	IncludePkg bool `json:"include_package_files,omitempty"`
 }
 
 func (s Selection) String() string {
+	if s.ProtoFile != "" {
+		return fmt.Sprintf("file=%s include_package_files=%v", s.ProtoFile, s.IncludePkg)
+	}
 	return fmt.Sprintf("in=%s path=%v exclude=%v", s.SubDir, s.Paths, s.Excludes)
+}
+
+// packageOf reads the package statement of a source text with the harness' own lexer ("" = none). Only the first
+// statement-level `package` keyword counts (a field or message may be called package as well).
+func packageOf(text string) string {
+	toks := lex(text)
+	depth := 0
+	for i, t := range toks {
+		switch text[t.Start:t.End] {
+		case "{":
+			depth++
+		case "}":
+			depth--
+		case "package":
+			if depth != 0 || (i > 0 && text[toks[i-1].Start:toks[i-1].End] != ";" && text[toks[i-1].Start:toks[i-1].End] != "}") {
+				continue
+			}
+			var b strings.Builder
+			for _, u := range toks[i+1:] {
+				if text[u.Start:u.End] == ";" {
+					return b.String()
+				}
+				b.WriteString(text[u.Start:u.End])
+			}
+			return b.String()
+		}
+	}
+	return ""
+}
+
+// refProtoFileTargets is the reference model of a .proto file reference: the referenced file is targeted; with
+// include_package_files the other files of its module that declare the same package are targeted too. A file without a
+// package statement has no package files. Files of OTHER modules that declare the same package are returned separately:
+// whether "the package" extends over module boundaries is not stated anywhere, either reading is accepted.
+func refProtoFileTargets(w *World, sel Selection) (must, optional []string) {
+	var ref *File
+	for i := range w.Files {
+		if w.Files[i].Ext == sel.ProtoFile {
+			ref = &w.Files[i]
+		}
+	}
+	if ref == nil {
+		return nil, nil
+	}
+	must = append(must, ref.Path)
+	if pkg := packageOf(ref.Text); sel.IncludePkg && pkg != "" {
+		for _, f := range w.Files {
+			if f.Ext == ref.Ext || packageOf(f.Text) != pkg {
+				continue
+			}
+			if f.Module == ref.Module {
+				must = append(must, f.Path)
+			} else {
+				optional = append(optional, f.Path)
+			}
+		}
+	}
+	sort.Strings(must)
+	sort.Strings(optional)
+	return must, optional
 }
 
 func containsPath(dirOrFile, p string) bool {
@@ -335,6 +439,10 @@ func containsPath(dirOrFile, p string) bool {
 // refTargets is the reference model of targeting: a file is targeted iff its module is part of the input
 // and it is selected by the path filters. Returns image paths, sorted.
 func refTargets(w *World, sel Selection) []string {
+	if sel.ProtoFile != "" {
+		must, _ := refProtoFileTargets(w, sel)
+		return must
+	}
 	var out []string
 	for _, f := range w.Files {
 		if sel.SubDir != "." && sel.SubDir != "" && w.ModDirs[f.Module] != sel.SubDir {
@@ -370,6 +478,9 @@ func refTargets(w *World, sel Selection) []string {
 // directory given as --path / --exclude-path, the same value for both flags, an exclude that contains a path).
 // For those either outcome is accepted; if an image is produced it is still checked.
 func selectionMayBeRejected(w *World, sel Selection) bool {
+	if sel.ProtoFile != "" {
+		return false
+	}
 	isMod := func(p string) bool {
 		for _, d := range w.ModDirs {
 			if d == p {
